@@ -292,9 +292,11 @@ class PFold(Fold):
         vals, names = [], []
         for a in flat:
             a2 = P.strip(a)
-            if a2.name in ("padav", "ex-padav"):
-                names.append(padname(a2))
-                vals.append(S(padname(a2)))
+            refd = [x for x in P.walk(a2) if x.name in ("padav", "ex-padav")] if a2.name in ("srefgen", "refgen") else []
+            if a2.name in ("padav", "ex-padav") or len(refd) == 1:
+                nm_ = padname(a2 if not refd else refd[0])
+                names.append(nm_)
+                vals.append(S(nm_))
             else:
                 names.append(None)
                 vals.append(self.ev(a, env))
@@ -305,6 +307,8 @@ class PFold(Fold):
         return v
 
     def inline_sub(self, name, vals, env, node):
+        self.inlined_subs = getattr(self, "inlined_subs", [])
+        self.inlined_subs.append((name, list(vals)))
         sub = env.copy()
         saved = (self.returns, self.return_envs, self.loop_marks, self.pending, self.args, self.loop_stack)
         self.returns, self.return_envs, self.loop_marks, self.pending, self.args, self.loop_stack = [], [], [], [], list(vals), list(self.loop_stack)
@@ -557,11 +561,22 @@ class PFold(Fold):
         self.loop_stack.append(lid)
         self.begin_loop()
         body = andop.kids[1]
+        tail = []
+        if head.name == "enterloop" and body.name == "lineseq":
+            # for (init; cond; incr): `next` jumps to the increment, which follows the body block inside the same lineseq
+            bk = [k for k in body.kids if k.name not in NOISE]
+            if len(bk) >= 2 and bk[0].name in ("leave", "scope", "null"):
+                body, tail = bk[0], bk[1:]
         try:
             self.stmt(body, benv)
         except Terminated:
             pass
         self.end_loop(benv)
+        for t_ in tail:
+            try:
+                self.stmt(t_, benv)
+            except Terminated:
+                pass
         self.loop_stack.pop()
         del self.guards[mark:]
         desc["step"] = {nm: benv.get(nm) for nm in carried if nm in benv}
@@ -584,10 +599,14 @@ class PFold(Fold):
 
 def inner(e, lid=None):
     """the event seen from inside its (innermost or given) loop: guards after the loop marker, exits taken inside the loop"""
+    if lid is None:
+        own = [g[0][1] for g in e["guards"] if isinstance(g[0], tuple) and g[0] and g[0][0] == "loop"]
+        lid = own[-1] if own else None
+
     def cut(gl):
-        ix = [i for i, g in enumerate(gl) if isinstance(g[0], tuple) and g[0] and g[0][0] == "loop" and (lid is None or g[0][1] == lid)]
+        ix = [i for i, g in enumerate(gl) if isinstance(g[0], tuple) and g[0] and g[0][0] == "loop" and g[0][1] == lid]
         return gl[ix[-1] + 1:] if ix else None
-    g = cut(e["guards"])
+    g = cut(e["guards"]) if lid is not None else None
     out = dict(e)
     out["guards"] = g if g is not None else list(e["guards"])
     out["not"] = [c for c in (cut(x) for x in e.get("not", [])) if c is not None]
